@@ -2,21 +2,8 @@
    clause 8.4 (no leak). *)
 From Util Require Import Common.Base Common.ListLemmas RefCount.Model RefCount.Spec RefCount.Proofs RefCount.ProofsC08 RefCount.ProofsC08b
   RefCount.ProofsC09 RefCount.ProofsC10 RefCount.ProofsC10a RefCount.ProofsC10b RefCount.ProofsCodec RefCount.ProofsMon RefCount.ProofsMon2 RefCount.ProofsMon3
-  RefCount.ProofsMon4 RefCount.ProofsMon5 RefCount.ProofsMon6 RefCount.ProofsMon7 RefCount.ProofsMonG.
+  RefCount.ProofsMon4 RefCount.ProofsMon5 RefCount.ProofsMon6 RefCount.ProofsMon7 RefCount.ProofsMonG RefCount.ProofsMon10 RefCount.ProofsMon17 RefCount.ProofsMonE RefCount.ProofsMon18.
 Open Scope nat_scope.
-
-Lemma mem_true x l : mem x l = true <-> In x l.
-Proof.
-  unfold mem. rewrite existsb_exists. split.
-  - intros [y [Hy E]]. apply N.eqb_eq in E. now subst.
-  - intros H. exists x. split; [exact H | apply N.eqb_refl].
-Qed.
-
-Lemma mem_filter x P l : mem x (filter P l) = true -> mem x l = true /\ P x = true.
-Proof. rewrite !mem_true, filter_In. auto. Qed.
-
-Lemma mem_app x l1 l2 : mem x (l1 ++ l2) = mem x l1 || mem x l2.
-Proof. unfold mem. apply existsb_app. Qed.
 
 Lemma Pret_step i s e : Pret i (gs s) -> Pret i (gs (step repaired s e)).
 Proof.
@@ -87,10 +74,10 @@ Section Out.
 
   (* 8.4: a release function that was returned and not called belongs to a result at its store gate, or to the stored value,
      which is legitimately kept (context + reference, or keep-unreferenced and no error) *)
-  Lemma clause_8_4 : m_cur m = cur_of s -> u_f8_4 m e p = [].
+  Lemma clause_8_4 : m_cur m = cur_of s -> Rempty m s -> u_f8_4 m e p = [].
   Proof.
-    intros Hcur. unfold u_f8_4. pose proof upd_out as UO. pose proof (HR_inv _ (HRh' h e e0 rets HRh Hd) Hc) as I2. cbn [hs] in I2.
-    pose proof (upd_cur m h e e0 rets HRh HP Hd Hc Hcur) as Ecur. pose proof (upd_ctx m h e e0 rets HP Hd) as Ectx.
+    intros Hcur Hem. unfold u_f8_4. pose proof upd_out as UO. pose proof (HR_inv _ (HRh' h e e0 rets HRh Hd) Hc) as I2. cbn [hs] in I2.
+    pose proof (upd_cur_c m h e e0 rets (HR_HRc h HRh Hc) HP Hd Hcur Hem) as Ecur. pose proof (upd_ctx m h e e0 rets HP Hd) as Ectx.
     pose proof (p_nin m h e e0 (upd_in m h e e0 rets HP Hd)) as Enin. pose proof (upd_keep m h e e0 rets HP Hd) as Ekeep.
     assert (F : forallb (fun g => mem g (u_at_store p) || (match u_cur m e p with Some (c, _) => N.eqb c g | None => false end && u_legit m e p)) (u_out m e p) = true); [|now rewrite F].
     apply forallb_forall. intros g Hg. apply mem_true in Hg. destruct (UO g Hg) as [[x [Hx [Hret Hrel]]] Hnot].
